@@ -1,6 +1,7 @@
 #!/bin/bash
 # tools/harmless_sweep.sh <dir-with-N.diff> <out-dir> [parallel]: apply each behaviour-preserving rewrite to a private
 # worktree of /repo, run every quick check from a private copy of /verif against it, record exit codes.
+# PROPS="03 17" limits the sweep to those checks (default: all twenty).
 # Expectation: every check exits 0 (no alarm on code where the properties still hold).
 src=$1; out=$2; par=${3:-3}
 mkdir -p "$out"
@@ -12,9 +13,9 @@ one() {
   git -C /repo worktree add -q --detach $wt HEAD || exit 1
   cp /repo/orso/compute/compiled.c /repo/orso/compute/compiled.cpython-312-x86_64-linux-gnu.so $wt/orso/compute/
   if ! git -C $wt apply $src/$n.diff; then echo "$n APPLY-FAILED" > $out/$n.txt; git -C /repo worktree remove --force $wt; exit 0; fi
-  rsync -a --exclude .git --exclude replays /verif/ $vc/
+  rsync -a --exclude .git --exclude replays ${VSRC:-/verif}/ $vc/
   : > $out/$n.txt
-  for p in $(seq -w 1 20); do
+  for p in ${PROPS:-$(seq -w 1 20)}; do
     ( cd $vc && ORSO_REPO=$wt timeout 1500 ./check C$p quick > $out/$n-C$p.log 2>&1; echo "$n C$p exit=$? $(grep -c ^VIOLATION $out/$n-C$p.log) $(grep ^VIOLATION $out/$n-C$p.log | head -2 | tr '\n' ' ')" >> $out/$n.txt )
     for r in $(grep -o 'replay=[^ ]*' $out/$n-C$p.log | cut -d= -f2); do cp $vc/$r $out/$n-$(basename $r) 2>/dev/null; done
     python3 - $vc/evidence/C$p.json >> $out/$n.txt 2>/dev/null <<'PY'
@@ -26,5 +27,5 @@ PY
   done
   git -C /repo worktree remove --force $wt; rm -rf $vc
 }
-export -f one
+export -f one; export PROPS VSRC
 ls $src/*.diff | sed 's/.*\///; s/\.diff//' | sort -n | xargs -P $par -I{} bash -c "one {} $src $out"
